@@ -157,7 +157,9 @@ def run(out, tier, seed, proof):
         files = [projc + comps(k) for k in c["known_rel"]]
         cdup = r["cdup"]
         git_root = projc + comps(cdup) if c["git"] else projc
-        git_files = [git_root + comps(f) for f in r["lsfiles"]] if c["git"] else []
+        # git ls-files runs in the project root and yields paths relative to it (F15, repaired: they were joined
+        # onto the root of the git repository)
+        git_files = [projc + comps(f) for f in r["lsfiles"]] if c["git"] else []
         known = C("known_list", files, C("Some", projc + comps("pyproject.toml")), projc, git_files, git_root)
         pats = [pat_term(p, False) for p in c["cli_exclude"] + c["cfg_exclude"] + [".git/*"]] + [(True, projc + comps(".pytask") + [[42]])]
         args = c["path_args"] or [""]
@@ -211,7 +213,7 @@ def run(out, tier, seed, proof):
             if e in protected:
                 out.violation("a task module, declared node or the configuration file was removed", {"case": c, "path": e})
             if e in tracked:
-                out.violation("a file tracked by git was removed", {"case": c, "path": e}, finding_matchers=("F15",) if c["proj_rel"] else ())
+                out.violation("a file tracked by git was removed", {"case": c, "path": e}, )
             rel = e[len(pre):] if e.startswith(pre) else e
             if rel == ".pytask" or rel.startswith(".pytask/"):
                 f14 = any(a.startswith(".pytask/") for a in c["path_args"])
